@@ -35,6 +35,9 @@ type svCase struct {
 	// OfferedJunk: entries that are not numbers, mixed into PLUGIN_PROTOCOL_VERSIONS (they are to be
 	// ignored -- and complained about on stderr only)
 	OfferedJunk []string `json:"offered_junk,omitempty"`
+	// EarlyConnect: a connection is made to the socket the moment it exists -- before the line is printed
+	// (the plugin pauses just before printing) -- and kept; the announced address must still accept afterwards
+	EarlyConnect bool `json:"early_connect,omitempty"`
 }
 
 var staticOnce sync.Once
@@ -56,6 +59,9 @@ func runServeCase(c svCase, bin, tmp string) map[string]interface{} {
 	}
 	if c.TLS == "static" {
 		pc.TLS, pc.CertPEM, pc.KeyPEM = "static", stCert, stKey
+	}
+	if c.EarlyConnect {
+		pc.HoldEvent, pc.HoldMs = "serve.line.printing", 120
 	}
 	// (directory names with characters a careless formatter would interpret)
 	sockDir := filepath.Join(tmp, c.Name+[]string{".sock", ".so%20ck", ".100%sure", ".s%v", ".sock"}[len(c.Name)%5])
@@ -118,6 +124,13 @@ func runServeCase(c svCase, bin, tmp string) map[string]interface{} {
 	}
 	// watch the socket directory while the process runs
 	socketSeen := false
+	var early net.Conn
+	earlyTried := false
+	defer func() {
+		if early != nil {
+			early.Close()
+		}
+	}()
 	stopWatch := make(chan struct{})
 	var watchWG sync.WaitGroup
 	watchWG.Add(1)
@@ -126,6 +139,11 @@ func runServeCase(c svCase, bin, tmp string) map[string]interface{} {
 		for {
 			if es, _ := os.ReadDir(sockDir); len(es) > 0 {
 				socketSeen = true
+				if c.EarlyConnect && early == nil && !earlyTried {
+					// somebody connects the moment the socket exists, before the line is out, and stays connected
+					earlyTried = true
+					early, _ = net.DialTimeout("unix", filepath.Join(sockDir, es[0].Name()), time.Second)
+				}
 			}
 			select {
 			case <-stopWatch:
